@@ -90,8 +90,8 @@ def run_case(case, ctx):
 	queries = build_sigs(np, case['queries'], qdt)
 	n = len(refs)
 	cont = case['container']
-	if cont == 'pylist' and n == 0:
-		cont = 'list'
+	if cont in ('pylist', 'pylist_mixed', 'list_mixed') and n == 0:
+		cont = 'list'      # an empty plain list carries no k-mer spec: outside the domain
 	h5 = None
 	if cont == 'array':
 		rc = SignatureArray(refs, kspec, dtype=np.dtype(rdt))
@@ -115,6 +115,17 @@ def run_case(case, ctx):
 		rc = SignatureList(refs, kspec, dtype=np.dtype(rdt))
 	elif cont == 'pylist':
 		rc = list(refs)
+	elif cont in ('pylist_mixed', 'list_mixed'):
+		# a plain list (or a SignatureList whose elements were replaced) holding arrays of DIFFERENT integer types:
+		# each signature is a legitimate argument on its own
+		alt = ['i8', 'u2', 'u4', 'i4', 'u8', 'i2']
+		refs = [r if (i % 3 == 0 or r.size and int(r.max()) > 32767) else r.astype(alt[(i + len(r)) % len(alt)]) for i, r in enumerate(refs)]
+		if cont == 'pylist_mixed' or not refs:
+			rc = list(refs)
+		else:
+			rc = SignatureList([refs[0]] * len(refs), kspec)
+			for i, r in enumerate(refs):
+				rc[i] = r
 	elif cont == 'hdf5':
 		path = ctx.fresh_path('.gs')
 		dump_signatures(path, SignatureArray(refs, kspec, dtype=np.dtype(rdt)))
@@ -239,6 +250,15 @@ def run_case(case, ctx):
 				shape = (len(queries), len(sel))
 				o, big, mask = make_out(shape)
 				qarg = SignatureArray(queries, kspec, dtype=np.dtype(qdt)) if case.get('q_container') == 'array' else list(queries)
+				if case.get('q_from_refs') and h5 is not None and n >= 2:
+					# the queries are a slice of the very collection (open file) that also serves as references
+					a_, b_ = sorted((case['q_from_refs'][0] % n, case['q_from_refs'][1] % n))
+					b_ = max(b_, a_ + 1)
+					qarg = rc[a_:b_]
+					queries = [refs[i] for i in range(a_, b_)]
+					shape = (len(queries), len(sel))
+					o, big, mask = make_out(shape)
+					classes.append('queries_sliced_from_reference_file')
 				try:
 					res = jaccarddist_matrix(qarg, rc, ref_indices=ri_arg, out=o, chunksize=cs)
 				except Exception as e:
@@ -351,7 +371,7 @@ def bulk_case(draw, tier):
 		'queries': queries,
 		'ref_dtype': draw(st.sampled_from(['u2', 'u4', 'u8', 'i2', 'i4', 'i8'])),
 		'q_dtype': draw(st.sampled_from(['u4', 'u2', 'u8', 'i8'])),
-		'container': draw(st.sampled_from(['array', 'list', 'pylist', 'hdf5', 'array_i4bounds', 'array', 'array_window', 'hdf5_window', 'array_be_bounds', 'array_u8_bounds'])),
+		'container': draw(st.sampled_from(['array', 'list', 'pylist', 'hdf5', 'array_i4bounds', 'array', 'array_window', 'hdf5_window', 'array_be_bounds', 'array_u8_bounds', 'pylist_mixed', 'list_mixed'])),
 		'q_container': draw(st.sampled_from(['list', 'array'])),
 		'func': func,
 		'chunksize': draw(st.one_of(st.none(), st.integers(1, n + 1), st.just(1000), st.just(1), st.just(2))),
@@ -362,6 +382,7 @@ def bulk_case(draw, tier):
 		'repeats': 3 if tier == 'quick' else 20,
 		'poison': draw(st.sampled_from([False, False, True])),
 		'py_threads': draw(st.sampled_from([1, 1, 3, 1, 2])),
+		'q_from_refs': draw(st.one_of(st.none(), st.tuples(st.integers(0, 40), st.integers(0, 40)).map(list))),
 	}
 
 
